@@ -32,8 +32,28 @@ trusted = ["hand-written model MptModel/Impl/Parse.lean + Impl/ParseConfig.lean 
            "checker and tree printer in the driver)"]
 
 
+STAT_AFTER = {"p": ("config", "node", "nparse", "folder"), "x": ("read",)}
+
+
+def with_stat(lines):
+    """behind every parse the op `p stat` / `x stat`: return code, line counter, number of getc calls, consumed
+    bytes (and the representation of the values of the tree) of the real code are compared with the model there
+    (observable section: a difference is a failure of the check, not drift)"""
+    out = []
+    for ln in lines:
+        out.append(ln)
+        w = ln.split()
+        if len(w) > 1 and w[0] in STAT_AFTER and w[1] in STAT_AFTER[w[0]]:
+            out.append(w[0] + " stat")
+    return out
+
+
+def stat_all(named):
+    return [(n, with_stat(s)) for n, s in named]
+
+
 def corpus(chk):
-    return gen.corpus(id)
+    return stat_all(gen.corpus(id))
 
 
 def hx(s):
@@ -362,7 +382,7 @@ def scripts(tier, seed, scale=1):
     out += buffer_steps(tier)
     out += grammar(tier, seed, scale)
     out += formats(tier, seed, scale)
-    return out
+    return stat_all(out)
 
 
 def nontrivial(script, c_lines):
@@ -405,10 +425,14 @@ class _XX:
 
     @staticmethod
     def corpus(chk):
-        return [(n, s) for n, s in gen.corpus(id) if s and s[0].startswith("x ")]
+        return stat_all([(n, s) for n, s in gen.corpus(id) if s and s[0].startswith("x ")])
 
     @staticmethod
     def scripts(tier, seed, scale=1):
+        return stat_all(_XX._scripts(tier, seed, scale))
+
+    @staticmethod
+    def _scripts(tier, seed, scale=1):
         out = []
         r = gen.rng(id, tier, seed, "xx")
         # fixed sequences: good file read twice, failing file in between, rewritten file, stale state after a failure
